@@ -136,9 +136,7 @@ func (w *World) call(n *node, kind string, in *pb.Message, f func()) bool {
 		}
 	}
 	w.refreshShadow(n, &post, in, kind)
-	if !w.failed() || len(w.Viol) < 4 {
-		w.monitors(n, kind, in, &pre, &post, created)
-	}
+	w.monitors(n, kind, in, &pre, &post, created)
 	w.refreshTimeout(n, &post)
 	n.st = post
 	if selfCheck {
@@ -378,6 +376,21 @@ func (w *World) afterDiskWrite(n *node) {
 	}
 }
 
+// noteWrittenVote: one vote per term over the node's whole life (C07). Every
+// hard state the application wrote - synced or, where raft said MustSync=false,
+// not - counts as persisted from the contract's point of view: raft must never
+// have two different votes written for one term, in any incarnation.
+func (w *World) noteWrittenVote(n *node, hs *pb.HardState, sync bool) {
+	if hs.GetVote() == 0 {
+		return
+	}
+	k := [2]uint64{n.id, hs.GetTerm()}
+	if old, ok := w.mon.writtenVote[k]; ok && old != hs.GetVote() {
+		w.violate("C07", []string{"C02", "C05"}, "node %d wrote hard states with two different votes for term %d: %d and then %d (incarnation %d, synced=%v)", n.id, hs.GetTerm(), old, hs.GetVote(), n.inc, sync)
+	}
+	w.mon.writtenVote[k] = hs.GetVote()
+}
+
 func (w *World) persistEntries(n *node, ents []*pb.Entry, sync bool) {
 	if len(ents) == 0 {
 		return
@@ -410,11 +423,17 @@ func (w *World) persistHS(n *node, hs *pb.HardState, sync bool) {
 		}
 		return
 	}
+	if !sync && hs.GetVote() != 0 {
+		if prev, _, _ := n.ms.InitialState(); prev.GetTerm() != hs.GetTerm() || prev.GetVote() != hs.GetVote() {
+			w.violate("C05", []string{"C07", "C02"}, "node %d: a hard state with a new vote (term %d vote %d, previously term %d vote %d) was handed out without durability being required (async=%v)", n.id, hs.GetTerm(), hs.GetVote(), prev.GetTerm(), prev.GetVote(), n.cfg.Async)
+		}
+	}
 	must(n.ms.SetHardState(proto.Clone(hs).(*pb.HardState)))
 	n.disk.write(nil, hs, sync)
 	if !sync {
 		w.Stats["unsynced-hs-writes"]++
 	}
+	w.noteWrittenVote(n, hs, sync)
 	w.afterDiskWrite(n)
 }
 
@@ -445,6 +464,7 @@ func (w *World) persistSnapshot(n *node, snap *pb.Snapshot, ents []*pb.Entry, hs
 	if hs != nil && !raft.IsEmptyHardState(hs) {
 		must(n.ms.SetHardState(proto.Clone(hs).(*pb.HardState)))
 		n.disk.setHSSynced(hs)
+		w.noteWrittenVote(n, hs, true)
 	}
 	w.afterDiskWrite(n)
 	// application installs the snapshot
